@@ -19,9 +19,12 @@ RULE = ("object scripts: random histories of ctor/copy/move/assign/move-assign/r
 LEVEL_TEXT = ("Lean 4 theorems for all sizes and all operation histories: the heap model of MemRep refines independent "
               "values and keeps an ownership invariant; index maps of Mat/SymMat are bijections; sums, both product "
               "implementations and transposes equal the entrywise definitions; the BadRank guard of every operator "
-              "(table regenerated from the headers on each run) implies conformity in shape; Mat::invert (Gauss-Jordan "
+              "(table regenerated from the headers on each run) implies conformity in shape, IS the guard of the operator model "
+              "(45 of 52 entries: model throws BadRank iff the table's guard fires on the reported shapes) and, when it passes, every "
+              "checked read of the model stays inside the operands (false, with a witness, only for Vec*TransMat); Mat::invert (Gauss-Jordan "
               "with full pivoting and the permutation undo) returns a two-sided inverse whenever it does not throw; "
-              "SymMat::cholDec/solve reproduce and solve; pinv satisfies the four Moore-Penrose conditions given an SVD "
+              "SymMat::cholDec/solve reproduce and solve (square-root law witnessed jointly over R); SymMat::invert on a positive "
+              "definite matrix meets only positive pivots, does not throw and returns the two-sided inverse; pinv satisfies the four Moore-Penrose conditions given an SVD "
               "certificate that is evaluated per run for tall, square, wide and rank-deficient matrices. "
               "Models tied to lib/matvec by a translator (guards) and differential correspondence (exact rational and IEEE double "
               "instances of the same definitions) and an always-on property oracle on the C++ answers.")
